@@ -145,6 +145,11 @@ class KillProcess(object):
                     for override in (None, 2):
                         yield {'g': g, 'behaviour': beh, 'stop_children': stop_children,
                                'override_signal': override, 'g_override': None}
+        # per-request graceful_timeout overrides, shorter and longer than the configured one
+        for g, go in ((1.0, 0.2), (30.0, 0.5), (0.2, 1.0), (0.0, 0.3)):
+            for beh in ('ignores', 'obeys-fast', 'obeys-slow'):
+                yield {'g': g, 'behaviour': beh, 'stop_children': False, 'override_signal': None,
+                       'g_override': go}
 
     def run(self, inp):
         import circus.watcher as W
@@ -155,6 +160,8 @@ class KillProcess(object):
         sig = inp['override_signal']
         stop_sig = sig if sig is not None else 15
         kw = {}
+        if inp.get('g_override') is not None:
+            g = inp['g_override']
         if beh == 'obeys-fast':
             kw = {'delay_after_stop': 0.05}
         elif beh == 'obeys-slow':
@@ -166,7 +173,7 @@ class KillProcess(object):
         elif beh == 'dead-already':
             kw = {'dies_at': 0.0}
         p = FakeProcess(k, 4242, stop_signals=(stop_sig,), kids=(77,), **kw)
-        w = real_watcher(graceful_timeout=g, stop_children=inp['stop_children'])
+        w = real_watcher(graceful_timeout=inp['g'], stop_children=inp['stop_children'])
         w.processes = {p.pid: p}
 
         def vsleep(d):
@@ -229,6 +236,125 @@ class KillProcess(object):
                 bad.add('post[10]')
         if obs['stopping'] or not obs['closed']:
             bad.add('post[12]')
+        return bad
+
+
+# ---------------------------------------------------------------------------- reap_process
+class ReapKernel(object):
+    """child table behind os.waitpid(pid, WNOHANG) and time.sleep (virtual)"""
+    def __init__(self, state, exit_status, polls_alive):
+        self.state = state              # 'alive' | 'zombie' | 'notchild'
+        self.exit_status = exit_status  # wait status it will report
+        self.polls_alive = polls_alive  # how many more (0,0) answers before it becomes a zombie
+        self.reaped = False
+        self.calls = 0
+        self.slept = 0.0
+
+    def waitpid(self, pid, options):
+        import errno
+        self.calls += 1
+        if self.calls > 200:
+            raise RuntimeError('replay: waitpid polled 200 times')
+        if self.state == 'notchild' or self.reaped:
+            raise OSError(errno.ECHILD, 'No child processes')
+        if self.state == 'alive':
+            if self.polls_alive > 0:
+                self.polls_alive -= 1
+                return (0, 0)
+            self.state = 'zombie'
+        self.reaped = True
+        return (pid, self.exit_status)
+
+    def sleep(self, d):
+        self.slept += d
+
+
+def wdecode(s):
+    return (s >> 8) & 0xff if s % 128 == 0 else -(s % 128)
+
+
+@register('circus.watcher:Watcher.reap_process')
+class ReapProcess(object):
+    def from_model(self, m):
+        return []
+
+    def enumerate(self):
+        for ours in (True, False):
+            for status in (None, 0, 3 * 256, 9, 15, 255 * 256):
+                for state, polls in (('alive', 1), ('alive', 3), ('zombie', 0), ('notchild', 0)):
+                    for es in (0, 256, 9):
+                        yield {'ours': ours, 'status': status, 'state': state, 'polls_alive': polls,
+                               'exit_status': es, 'returncode': 7}
+
+    def run(self, inp):
+        import circus.watcher as W
+        k = ReapKernel(inp['state'], inp['exit_status'], inp['polls_alive'])
+        fk = FakeKernel()
+        p = FakeProcess(fk, 4242)
+        p.returncode = lambda: inp['returncode']
+        p.status = 1        # DEAD_OR_ZOMBIE
+        other = FakeProcess(fk, 4343)
+        w = real_watcher()
+        w.processes = {4343: other}
+        if inp['ours']:
+            w.processes[4242] = p
+        events = []
+        w.notify_event = lambda topic, msg: events.append((topic, dict(msg)))
+        saved = (W.os.waitpid, W.time.sleep)
+
+        class _OS(object):
+            def __getattr__(self, n):
+                return getattr(saved_os, n)
+        saved_os, saved_time = W.os, W.time
+
+        class OSP(object):
+            waitpid = staticmethod(k.waitpid)
+
+            def __getattr__(self, n):
+                return getattr(saved_os, n)
+
+        class TP(object):
+            sleep = staticmethod(k.sleep)
+
+            def __getattr__(self, n):
+                return getattr(saved_time, n)
+        W.os, W.time = OSP(), TP()
+        obs = {}
+        try:
+            W.Watcher.reap_process(w, 4242, inp['status'])
+        except Exception as e:
+            obs['raised'] = type(e).__name__ + ': ' + str(e)
+        finally:
+            W.os, W.time = saved_os, saved_time
+        obs['listed'] = sorted(w.processes)
+        obs['reaps'] = [[m.get('process_pid'), m.get('exit_code')] for t, m in events if t == 'reap']
+        obs['other_events'] = [t for t, m in events if t != 'reap']
+        obs['child_left'] = (k.state != 'notchild') and not k.reaped      # still an unreaped child of ours
+        obs['was_child'] = inp['state'] != 'notchild'
+        obs['waitpid_calls'] = k.calls
+        return obs
+
+    def check(self, inp, obs):
+        bad = set()
+        if 'raised' in obs:
+            return set(['noescape'])
+        if not inp['ours']:
+            if obs['reaps'] or obs['listed'] != [4343] or obs['waitpid_calls']:
+                bad.add('post[0]')
+            return bad
+        if 4242 in obs['listed'] or len(obs['reaps']) != 1 or obs['reaps'][0][0] != 4242:
+            bad.add('post[1]')
+        if 4343 not in obs['listed']:
+            bad.add('post[2]')
+            bad.add('post[3]')
+        if obs['reaps']:
+            code = obs['reaps'][0][1]
+            if inp['status'] is not None and code != wdecode(inp['status']):
+                bad.add('post[4]')
+            if inp['status'] is None and obs['was_child'] and code != wdecode(inp['exit_status']):
+                bad.add('post[5]')
+        if inp['status'] is None and obs['child_left']:
+            bad.add('post[6]')
         return bad
 
 
@@ -343,4 +469,58 @@ class SpawnProcess(object):
             bad.add('post[9]')
         if obs['leaked']:
             bad.add('post[accounted]')       # a live child that no watcher lists
+        return bad
+
+
+# ---------------------------------------------------------------------------- call_hook
+@register('circus.watcher:Watcher.call_hook')
+class CallHook(object):
+    """real Watcher.call_hook with real callables as hooks; events recorded at notify_event"""
+    def from_model(self, m):
+        return []
+
+    def enumerate(self):
+        for registered in (True, False):
+            for outcome in ('true', 'false', 'raise', 'none'):
+                for ignore in (False, True):
+                    for name in ('before_start', 'after_spawn', 'before_stop', 'before_signal'):
+                        yield {'hook_name': name, 'registered': registered, 'outcome': outcome, 'ignore': ignore}
+
+    def run(self, inp):
+        w = real_watcher()
+        calls = []
+
+        def hook(*a, **kw):
+            calls.append(kw.get('hook_name'))
+            if inp['outcome'] == 'raise':
+                raise ValueError('hook failed')
+            return {'true': True, 'false': False, 'none': None}[inp['outcome']]
+        w.hooks = {inp['hook_name']: hook} if inp['registered'] else {}
+        w.ignore_hook_failure = [inp['hook_name']] if inp['ignore'] else []
+        events = []
+        w.notify_event = lambda topic, msg: events.append(topic)
+        obs = {}
+        try:
+            r = w.call_hook(inp['hook_name'], pid=1)
+            obs['result'] = r if isinstance(r, (bool, type(None), int)) else repr(r)
+        except Exception as e:
+            obs['raised'] = type(e).__name__
+        obs['calls'] = len(calls)
+        obs['events'] = events
+        return obs
+
+    def check(self, inp, obs):
+        bad = set()
+        if 'raised' in obs:
+            return set(['noescape'])
+        if not inp['registered']:
+            if obs['result'] is not True or obs['events']:
+                bad.add('post[0]')
+            return bad
+        hook_events = [e for e in obs['events'] if e in ('hook_success', 'hook_failure')]
+        if len(hook_events) != 1 or len(obs['events']) != 1:
+            bad.add('post[1]')
+            bad.add('post[2]')
+        if hook_events and hook_events[-1] == 'hook_failure' and obs['result'] is not inp['ignore']:
+            bad.add('post[4]')
         return bad
